@@ -15,6 +15,10 @@ from bardolph.controller.snapshot import ScriptSnapshot, TextSnapshot
 class ScriptControl:
     def __init__(self, file_name, run_background=False, title='', path='',
                 background='', color='', icon=''):
+        # The escaped strings are for display in a page. For finding the file
+        # and for naming the job, the original strings are needed.
+        self.script_file = file_name
+        self.job_name = path
         self.file_name = html.escape(file_name)
         self.run_background = run_background
         self.path = html.escape(path)
@@ -58,12 +62,12 @@ class WebApp:
     @inject(Settings)
     def queue_script(self, script_control, settings):
         fname = join(
-            settings.get_value("script_path", "."), script_control.file_name)
+            settings.get_value("script_path", "."), script_control.script_file)
         job = ScriptJob.from_file(fname)
         if script_control.run_background:
-            self._jobs.spawn_job(job, script_control.path)
+            self._jobs.spawn_job(job, script_control.job_name)
         else:
-            self._jobs.add_job(job, script_control.path)
+            self._jobs.add_job(job, script_control.job_name)
         return True
 
     def queue_file(self, file_name, run_background=False):
@@ -75,14 +79,15 @@ class WebApp:
         script_control = self._scripts.get(path, None)
         if script_control is not None:
             script_control = copy.copy(script_control)
-            script_control.running = self._jobs.is_running(script_control.path)
+            script_control.running = self._jobs.is_running(
+                script_control.job_name)
         return script_control
 
     def get_script_list(self):
         result = []
         for script in self._scripts.values():
             script = copy.copy(script)
-            script.running = self._jobs.is_running(script.path)
+            script.running = self._jobs.is_running(script.job_name)
             result.append(script)
         return result
 
